@@ -1,7 +1,7 @@
 #!/usr/bin/env python3
 """Re-run only the two demonstration steps (clean tree + demo passes, patched tree + demo fails) of stored seeds and
 update their meta.json; the whole-suite step and the detection recorded earlier are kept.
-usage: tools/seed_redemo.py <seed-id-prefix>... [--crate X]"""
+usage: tools/seed_redemo.py <seed-id-prefix>... [--crate X] [--suite]   (--suite: re-run the whole existing suite with the patch as well)"""
 import fcntl, glob, json, os, re, subprocess, sys
 
 VERIF = '/verif'
@@ -17,6 +17,9 @@ def sh(cmd, cwd=None, timeout=3600):
 def main():
     crate = 'lightning'
     args = sys.argv[1:]
+    suite = '--suite' in args
+    if suite:
+        args.remove('--suite')
     if '--crate' in args:
         crate = args[args.index('--crate') + 1]
         del args[args.index('--crate'):args.index('--crate') + 2]
@@ -54,9 +57,19 @@ def main():
                 assert rc == 0, out
                 rc2, out2 = sh(democmd + ' 2>&1 | tail -25', cwd=os.path.join(wt, crate))
                 fails_patched = 'test result: FAILED' in out2
+                suite_rec = None
+                if suite:
+                    sh('git apply -R %s' % os.path.join(d, 'demo.diff'), cwd=wt)
+                    rc3, out3 = sh('cargo nextest run --workspace --no-fail-fast --tool-config-file pb:/w/lib/nextest.toml --profile pb --test-threads 8 --offline 2>&1 | tail -60', cwd=wt, timeout=7200)
+                    m = re.search(r'(\d+) tests run: (\d+) passed(?: \([^)]*\))?, (\d+) failed', out3)
+                    ok = bool(m) and int(m.group(2)) == 1807 and int(m.group(3)) == 3
+                    suite_rec = {'step': 'patch only: whole existing suite', 'cmd': 'cargo nextest run --workspace ... (baseline command; re-run on a quiet machine)', 'summary': m.group(0) if m else out3[-900:], 'same_as_baseline': ok,
+                                 'failing': sorted(set(re.findall(r'FAIL \[[^\]]*\] \(\S+\) (\S+ \S+)', out3)))}
             finally:
                 sh('git checkout -q -- . && git clean -fdq -e target', cwd=wt)
             ran = [r for r in meta['ran'] if r.get('step') not in ('clean + demo', 'patch + demo')]
+            if suite_rec is not None:
+                ran = [r for r in ran if not r.get('step', '').startswith('patch only')] + [suite_rec]
             ran = [{'step': 'clean + demo', 'cmd': democmd, 'passed': ok_clean, 'tail': out1[-400:]},
                    {'step': 'patch + demo', 'cmd': democmd, 'failed_as_expected': fails_patched, 'tail': out2[-600:]}] + ran
             meta['ran'] = ran
